@@ -257,10 +257,12 @@ def run(F, rep):
     # ------------------------------------------------------------------ clauses shared with C16 (value recognisers the validator relies on)
     import core
     import c16
-    c16.run(F, core.Borrowed(rep, only={'C16.N1', 'C16.G1', 'C16.U2'}))
+    if not getattr(rep, 'nested', False):
+        c16.run(F, core.Borrowed(rep, only={'C16.N1', 'C16.G1', 'C16.U2'}))
     # the hierarchy predicates the validator relies on for connections (siblings / parent-child) compare owners: clause shared with C09
     import c09
-    c09.run(F, core.Borrowed(rep, only={'C09.Q1'}))
+    if not getattr(rep, 'nested', False):
+        c09.run(F, core.Borrowed(rep, only={'C09.Q1'}))
 
     # ------------------------------------------------------------------ W: walks over the component tree are complete
     import recursion as _recw
@@ -299,5 +301,9 @@ def run(F, rep):
     # ------------------------------------------------------------------ loop-carried locals
     from engines import rule_loop_state
     rule_loop_state(F, rep, 'C04.L1', lambda g: g.file.endswith('/validator.cpp'), 'validator.cpp')
+
+    # ------------------------------------------------------------------ every element of a collection is handled
+    from engines import rule_visit_all
+    rule_visit_all(F, rep, 'C04.Y1', lambda g: g.file.endswith('/validator.cpp'), 25, 'validator.cpp')
 
 
